@@ -215,7 +215,9 @@ def run(ctx):
     ctx.minimum('C18-route', 4)
 
     # ---- C18-trunc (library unit: format())
-    from ..symval import SymVal, render
+    from ..symval import SymVal, render, lin_str
+    from ..ptrnorm import ladd as ladd_
+    from ..table import table_of
     kf = [k for k in ctx.G.defs if k[0] == 'cctz::detail::format']
     if len(kf) != 1:
         raise AnalysisBroken('C18-trunc: detail::format not found')
@@ -235,12 +237,36 @@ def run(ctx):
                 continue
             n_t += 1
             bad = []
+            wv = sv.value_ast(call_args(x)[1])
+            wt = wv[0][1] if wv is not None and len(wv) == 1 else None
+            if wt is not None and wt[0] == 'key' and re.match(r'^\w+#0x[0-9a-f]+$', wt[2]):
+                wt = ('int', None, {wt[2]: 1})          # a plain (untracked) integer local: stands for itself
+            wstr = lin_str(wt[2]) if wt is not None and wt[0] == 'int' else None
             for r in rend:
                 flat = re.sub(r'\[[^\]]*\]', '[]', r)
                 if re.search(r'[+-]', flat) or re.search(r'\b(l?l?round|ceil|nearbyint|rint)\(', flat):
                     bad.append(r)
+                    continue
+                # the scale matches the digit count W: fs (W == 15), fs * 10^(W-15), fs / 10^(15-W); fs counts 10^-15 s
+                m_ = re.match(r'^\((?P<a>.+\.count\(\)) (?P<op>[*/]) (?P<tab>\w+#0x[0-9a-f]+)\[(?P<idx>[^\]]+)\]\)$', r)
+                if wstr is None:
+                    bad.append(r + ' (digit count not a linear value)')
+                elif m_ is None:
+                    if not (re.match(r'^.+\.count\(\)$', r) and wstr == '15'):
+                        bad.append(r + ' for %s digits' % wstr)
+                else:
+                    want = ladd_(wt[2], {'': 15}, -1) if m_.group('op') == '*' else ladd_({'': 15}, wt[2], -1)
+                    td = u.by_id.get(m_.group('tab').split('#')[1])
+                    try:
+                        tab = table_of(u, td)[0] if td is not None else None
+                    except Exception:
+                        tab = None
+                    pow10 = isinstance(tab, list) and all(isinstance(v_, int) and v_ == 10 ** i_ for i_, v_ in enumerate(tab))
+                    if m_.group('idx') != lin_str(want) or not pow10:
+                        bad.append(r + ' for %s digits' % wstr)
             ctx.check(not bad and val is not None, 'C18-trunc', 'fraction digits at %s: femtoseconds scaled by a power of ten only' % pos(x), x,
-                      'the value rendered as fractional digits is %s: an additive term rounds the fraction instead of truncating it'
+                      'the value rendered as fractional digits is %s: it is not the femtosecond count scaled by exactly the power of ten '
+                      'that leaves the requested number of digits (an additive term rounds; another scale drops or shifts digits)'
                       % (bad[:1] or rend[:1]), construct='trunc:%s' % pos(x).split(':')[-1], detail='; '.join(rend)[:120])
     if n_t < 2:
         raise AnalysisBroken('C18-trunc: fewer than 2 renderings of the femtosecond count found in format() (%d)' % n_t)
